@@ -10,8 +10,9 @@ import tokenize
 
 from ginverif import core
 
-SYNTAX_TEXTS = ['f.p = ]', 'f.p =', 'f..p = 1', "'''unterminated", 'f.p = [1', 'f.p = 1 2', 'f.p == 1', 'f.p = {1:}',
-                'f/ p.q = 1', 'f.p = 1 +', 'g: 1', 'f.p = $']
+# text the parser rejects / text the tokenizer itself rejects (raised while the *next* statement is being fetched)
+SYNTAX_TEXTS = ['f.p = ]', "'''unterminated", 'f.p =', "'oops.x = 4", 'f..p = 1', '0bad.x = 4', 'f.p = [1', 'f.p = "abc', 'f.p = 1 2',
+                'f.p = 1_', 'f.p == 1', "f.p = b'\u00e9'", 'f.p = {1:}', 'f.p = 0777', 'f/ p.q = 1', 'f.p = 1 +', 'g: 1', 'f.p = $']
 _STATE = {}
 
 
@@ -93,15 +94,16 @@ class MemReader:
     return path in self.files
 
 
-def run_case(case, salt):
-  """Materialises the file store, parses root.gin with the real gin and returns the observation."""
+@contextlib.contextmanager
+def materialised(case, salt):
+  """The file store of a case on disk / in memory, the readers and the search locations registered in the case's
+  registration order.  Yields (gin, config, skip_unknown argument)."""
   gin, config = setup()
   work = tempfile.mkdtemp(prefix='ginverif_parse_')
   cwd = os.getcwd()
   saved_readers = list(config._FILE_READERS)
   saved_prefixes = list(config._LOCATION_PREFIXES)
   mem = MemReader()
-  obs = {}
   _STATE['n'] = _STATE.get('n', 0) + 1
   pkgname = 'gvparsepkg%d' % _STATE['n']          # package-relative names resolve through the Python path
   pkgroot = tempfile.mkdtemp(prefix='ginverif_pkg_')
@@ -117,7 +119,8 @@ def run_case(case, salt):
       p = os.path.join(work, loc)
       os.mkdir(p)
       locpath[loc] = p
-      gin.add_config_file_search_path(p)
+    for loc in case.get('reglog', ['L1', 'L2']):
+      gin.add_config_file_search_path(locpath[loc])
     config.register_file_reader(mem.open, mem.readable)
     expected_first = {n: (r[1] if r[0] == 'found' else None) for n, r in case['resolved'].items()}
     for loc, reader, name in case['present']:
@@ -142,6 +145,36 @@ def run_case(case, salt):
     skip = {'false': False, 'true': True}.get(sk['mode'])
     if skip is None:
       skip = [list(sk['names']), tuple(sk['names']), set(sk['names'])][salt % 3]
+    yield gin, config, skip
+  finally:
+    os.chdir(cwd)
+    config._FILE_READERS[:] = saved_readers
+    config._LOCATION_PREFIXES[:] = saved_prefixes
+    try:
+      config._set_config_is_locked(False)
+      gin.clear_config()
+    except Exception:  # pylint: disable=broad-except
+      pass
+    shutil.rmtree(work, ignore_errors=True)
+    if pkgroot in sys.path:
+      sys.path.remove(pkgroot)
+    sys.modules.pop(pkgname, None)
+    shutil.rmtree(pkgroot, ignore_errors=True)
+
+
+def _recorded_imports(gin):
+  """The imports the configuration remembers, as config_str() writes them (which must always work)."""
+  try:
+    text = gin.config_str()
+  except Exception as e:  # pylint: disable=broad-except
+    return 'config_str RAISED %s: %s' % (type(e).__name__, str(e)[:120])
+  return sorted(set(m.group(1) for m in re.finditer(r'^import (\S+)', text, re.M)))
+
+
+def run_case(case, salt):
+  """Materialises the file store, parses root.gin with the real gin and returns the observation."""
+  obs = {}
+  with materialised(case, salt) as (gin, config, skip):
     try:
       res = gin.parse_config_file('root.gin', skip_unknown=skip)
       obs['status'] = 'ok'
@@ -153,6 +186,7 @@ def run_case(case, salt):
       obs['tree'] = []
     obs['cfg'] = project_cfg(config)
     obs['prov'] = project_prov(config)
+    obs['recorded'] = _recorded_imports(gin)
     obs['restored'] = dict(contexts=len(config._PARSE_CONTEXTS), scope=list(gin.current_scope()), locked=gin.config_is_locked())
     # later parsing behaves as in a fresh process with that prefix applied
     try:
@@ -161,16 +195,34 @@ def run_case(case, salt):
     except Exception as e:  # pylint: disable=broad-except
       obs['after'] = 'RAISED %s: %s' % (type(e).__name__, e)
     return obs
-  finally:
-    os.chdir(cwd)
-    config._FILE_READERS[:] = saved_readers
-    config._LOCATION_PREFIXES[:] = saved_prefixes
-    gin.clear_config()
-    shutil.rmtree(work, ignore_errors=True)
-    if pkgroot in sys.path:
-      sys.path.remove(pkgroot)
-    sys.modules.pop(pkgname, None)
-    shutil.rmtree(pkgroot, ignore_errors=True)
+
+
+def run_entry(case, index, salt):
+  """parse_config_files_and_bindings with the index-th argument form of the case.  Returns None or (clause, expected, got)."""
+  ent = case['entries'][index]
+  form, want = ent['form'], ent['result']
+  with materialised(case, salt) as (gin, config, skip):
+    files = [n + '.gin' for n in form['files']]
+    if not files and salt % 2:
+      files = None
+    b = form['bindings']
+    bindings = {'none': None, 'emptylist': [], 'emptystr': '', 'one': [render([case['entry_binding']], salt).strip()]}[b]
+    if b == 'one' and salt % 3 == 0:
+      bindings = bindings[0]          # a single string is accepted as well
+    kwargs = dict(skip_unknown=skip)
+    if not form['finalize'] or salt % 2:
+      kwargs['finalize_config'] = bool(form['finalize'])      # True is also the default
+    try:
+      gin.parse_config_files_and_bindings(files, bindings, **kwargs)
+      status = 'ok'
+    except BaseException as e:  # pylint: disable=broad-except
+      status = status_of(e)
+    got = dict(status=status, cfg=project_cfg(config), locked=bool(gin.config_is_locked()))
+    exp = dict(status=want['status'], cfg=sorted([x['scope'], x['sel'], x['param'], list(x['val'])] for x in want['cfg']),
+               locked=bool(want['locked']))
+    if got != exp:
+      return ('entry-point', dict(form=form, **exp), got)
+    return None
 
 
 def status_of(e):
@@ -231,6 +283,8 @@ def compare(case, obs):
     want_tree = [_tree(t) for t in r['tree']]
     if want_tree != obs['tree']:
       return ('returned-tree', want_tree, obs['tree'])
+  if 'recorded' in r and sorted(r['recorded']) != obs['recorded']:
+    return ('recorded-imports', sorted(r['recorded']), obs['recorded'])
   if obs['restored'] != dict(contexts=1, scope=[], locked=False):
     return ('restored', dict(contexts=1, scope=[], locked=False), obs['restored'])
   if obs['after'] != 'after':
@@ -240,35 +294,3 @@ def compare(case, obs):
 
 def _tree(t):
   return dict(file=t['file'], imports=list(t['imports']), includes=[_tree(x) for x in t['includes']])
-
-
-def entry_point_case(case, salt, finalize):
-  """parse_config_files_and_bindings: files in order, then the extra bindings, then finalize iff asked.
-  Only for cases that parse cleanly.  Returns None or (clause, expected, got)."""
-  gin, config = setup()
-  work = tempfile.mkdtemp(prefix='ginverif_parse_')
-  cwd = os.getcwd()
-  try:
-    os.chdir(work)
-    for name in ('root', 'a', 'b', 'p'):
-      with open(os.path.join(work, name + '.gin'), 'w') as fh:
-        fh.write(render(case['files'][name], salt))
-    with open(os.path.join(work, 'second.gin'), 'w') as fh:
-      fh.write("gvparse.f.p = 'from-second-file'\ngvparse.g.p = 'from-second-file'\n")
-    gin.clear_config()
-    sk = case['skip']
-    skip = {'false': False, 'true': True}.get(sk['mode'], list(sk['names']))
-    gin.parse_config_files_and_bindings(['root.gin', 'second.gin'], ["gvparse.g.p = 'from-bindings'"],
-                                        finalize_config=finalize, skip_unknown=skip)
-    got = dict(f=config._CONFIG.get(('', 'gvparse.f'), {}).get('p'), g=config._CONFIG.get(('', 'gvparse.g'), {}).get('p'),
-               locked=gin.config_is_locked())
-    want = dict(f='from-second-file', g='from-bindings', locked=bool(finalize))
-    return None if got == want else ('entry-point-order', want, got)
-  except Exception as e:  # pylint: disable=broad-except
-    if finalize and isinstance(e, ValueError) and ('unknown' in str(e).lower() or 'No configurable matching' in str(e)):
-      return None      # finalize legitimately rejects placeholders for unknown references
-    return ('entry-point-order', 'no exception', '%s: %s' % (type(e).__name__, str(e)[:200]))
-  finally:
-    os.chdir(cwd)
-    gin.clear_config()
-    shutil.rmtree(work, ignore_errors=True)
